@@ -166,6 +166,9 @@ class SimWorld:
     def make_events(self):
         for name in self.scenario.get("events", ()):
             self.events[name] = self.label(self.env.event(), "ev:" + name)
+        for name in self.scenario.get("defusers", ()):
+            # a callback that handles a failure of the event (SimPy: sets `defused`)
+            self.events[name].callbacks.append(lambda ev: setattr(ev, "defused", True))
 
     def member(self, spec):
         env = self.env
